@@ -78,12 +78,21 @@ func OpenScope(p *Scope) *Scope {
 	}
 }
 
+// Deepest nesting of statement blocks that is parsed (real modules stay
+// below a few dozen levels)
+const maxStmtDepth = 10000
+
+// Most pieces a quoted argument may be concatenated from
+const maxArgPieces = 10000
+
 // Tree is the representation of a single parsed template.
 type Tree struct {
 	Root      Node // top-level root of the tree.
 	ParseName string
 	extCard   NodeCardinality // Function to provide cardinality of extensions
 	noExtCard bool            // none was given: extension statements may stand anywhere
+	depth     int             // of the statement block being parsed
+	pieces    int             // '+' pieces of the argument being parsed
 	text      string          // text parsed to create the template (or its parent)
 	lex       *lexer
 	token     [3]item // three-token lookahead for parser.
@@ -569,6 +578,7 @@ func (t *Tree) argument(ctx string) string {
 		s = i.val
 	case itemQuote:
 		i = t.nextNonSpace()
+		t.pieces = 0
 		s = t.argumentQuoted(ctx)
 	default:
 		t.unexpected(i, ctx)
@@ -619,6 +629,11 @@ func (t *Tree) argumentConcatenate(ctx string) string {
 		return s
 	case itemPlus:
 		i = t.nextNonSpace()
+		// (every piece is a level of recursion, see maxStmtDepth)
+		t.pieces++
+		if t.pieces > maxArgPieces {
+			t.errorf("more than %d pieces in %s", maxArgPieces, ctx)
+		}
 		// must be followed by [sep] quote
 		t.expect(itemQuote, ctx)
 		s = t.argumentQuoted(ctx)
@@ -636,7 +651,16 @@ func (t *Tree) stmtBody(ctx string, s *Scope) []Node {
 	delim := t.expectOneOf(itemSemiColon, itemLeftBrace, ctx)
 	switch delim.typ {
 	case itemLeftBrace:
+		// Every level of nesting is a few frames of this parser's
+		// recursion: a text of a million opening braces would exhaust the
+		// goroutine stack, which is fatal and cannot be recovered from
+		t.depth++
+		if t.depth > maxStmtDepth {
+			t.errorf("statements nested more than %d deep in %s",
+				maxStmtDepth, ctx)
+		}
 		out = t.stmtStar(ctx, s)
+		t.depth--
 		t.expect(itemRightBrace, ctx)
 	case itemSemiColon:
 	default:
